@@ -119,8 +119,43 @@ def _alarm(*a):
 
 
 def program(shape_src):
-    return ("def f(u1, u2, it, obs, ctx, sup, E):\n    for _outer in [0]:\n" + textwrap.indent(shape_src, "        ") +
-            "\n        obs('F')\n    return 'end'\n")
+    """the function the shape runs in.  A first line `#frame:<name>` selects what FOLLOWS the shape: by default a statement of the same block;
+    `last` / `last2`: the shape ends its block(s) and the next line is indented one / two levels less; `eof`: nothing follows at all;
+    `module`: the next line is a module-level statement"""
+    frame = "next"
+    if shape_src.startswith("#frame:"):
+        first, _, shape_src = shape_src.partition("\n")
+        frame = first[len("#frame:"):]
+    head = "def f(u1, u2, it, obs, ctx, sup, E):\n    for _outer in [0]:\n"
+    if frame == "next":
+        return head + textwrap.indent(shape_src, "        ") + "\n        obs('F')\n    return 'end'\n"
+    if frame == "last":
+        return head + textwrap.indent(shape_src, "        ") + "\n    obs('F')\n    return 'end'\n"
+    if frame == "last2":
+        return head + "        if not obs:\n            return 0\n        else:\n" + textwrap.indent(shape_src, "            ") + "\n    obs('F')\n    return 'end'\n"
+    if frame == "eof":
+        return head + textwrap.indent(shape_src, "        ")
+    if frame == "module":
+        # the line after the function is a call at column 0 whose name is long enough for a column inside the function to fall into it
+        return "def observe_result(g):\n    return g\n\n\n" + head + textwrap.indent(shape_src, "        ") + "\nobserve_result(f)\nobserve_result(observe_result)\n"
+    raise ValueError(frame)
+
+
+def moved_code_shapes():
+    """if / else (elif, nested) whose branches start or end with the same statement - what breakout_common_code_in_ifs moves in front of or behind
+    the `if` - in every frame: the position the moved statement gets is computed from the line AFTER the if"""
+    bodies = [
+        ["if u1:", "    obs(1)", "    obs(9)", "else:", "    obs(2)", "    obs(9)"],
+        ["if u1:", "    obs(9)", "    obs(1)", "else:", "    obs(9)", "    obs(2)"],
+        ["if u1:", "    obs(1)", "    obs(8)", "    obs(9)", "else:", "    obs(2)", "    obs(8)", "    obs(9)"],
+        ["if u1:", "    obs(1)", "    obs(9)", "elif u2:", "    obs(2)", "    obs(9)", "else:", "    obs(3)", "    obs(9)"],
+        ["if u1:", "    obs(1)", "    obs(9)", "else:", "    if u2:", "        obs(2)", "        obs(9)", "    else:", "        obs(3)", "        obs(9)"],
+        ["if u1:", "    obs(1)", "    obs(", "        9", "    )", "else:", "    obs(2)", "    obs(", "        9", "    )"],
+        ["if u1:", "    obs(1)", "    x = obs(9)", "else:", "    obs(2)", "    x = obs(9)"],
+        ["if u1:", "    obs(1)", "    return 9", "else:", "    obs(2)", "    return 9"],
+        ["if u1:", "    obs(1)", "    for a in it:", "        obs(a)", "else:", "    obs(2)", "    for a in it:", "        obs(a)"],
+    ]
+    return [[f"#frame:{fr}"] + b for fr in ("next", "last", "last2", "eof", "module") for b in bodies]
 
 
 def execute(src, u1, u2, it):
@@ -130,6 +165,8 @@ def execute(src, u1, u2, it):
         exec(compile(src, "<s>", "exec"), ns)
     except SyntaxError:
         return "invalid"
+    except Exception as ex:  # noqa: BLE001
+        return (), ("module-level-code-raises", type(ex).__name__)
     trace = []
 
     def obs(k):
@@ -405,7 +442,7 @@ def run(tier, seed):
     else:
         cons_shapes = rnd.sample(shapes, min(len(shapes), 5000))
     have = {"\n".join(x) for x in cons_shapes}
-    cons_shapes = cons_shapes + [x for x in elif_shapes() if "\n".join(x) not in have] + raising_purpose_shapes()
+    cons_shapes = cons_shapes + [x for x in elif_shapes() if "\n".join(x) not in have] + raising_purpose_shapes() + moved_code_shapes()
     stmts = [f"{e}" for e in EXPRS] + STMTS
     ctx = mp.get_context("fork")
     with ctx.Pool(16, maxtasksperchild=300) as pool:
